@@ -193,6 +193,22 @@ impl TryFrom<v1::Instance> for Instance {
             );
         }
 
+        // All variable IDs used in the functions must be defined (see the invariants of `Instance`)
+        check_function_ids(&objective, &decision_variables)
+            .map_err(|e| e.context(message, "objective"))?;
+        for c in constraints.values() {
+            check_function_ids(&c.function, &decision_variables)
+                .map_err(|e| e.context(message, "constraints"))?;
+        }
+        for c in removed_constraints.values() {
+            check_function_ids(&c.constraint.function, &decision_variables)
+                .map_err(|e| e.context(message, "removed_constraints"))?;
+        }
+        for f in decision_variable_dependency.values() {
+            check_function_ids(f, &decision_variables)
+                .map_err(|e| e.context(message, "decision_variable_dependency"))?;
+        }
+
         let context = (decision_variables, constraints);
         let constraint_hints = if let Some(hints) = value.constraint_hints {
             hints.parse_as(&context, message, "constraint_hints")?
@@ -213,6 +229,22 @@ impl TryFrom<v1::Instance> for Instance {
             constraint_hints,
         })
     }
+}
+
+fn check_function_ids(
+    f: &Function,
+    decision_variables: &HashMap<VariableID, DecisionVariable>,
+) -> Result<(), ParseError> {
+    let ids = match f {
+        Function::Constant(_) => Default::default(),
+        Function::Linear(l) => l.used_decision_variable_ids(),
+        Function::Quadratic(q) => q.used_decision_variable_ids(),
+        Function::Polynomial(p) => p.used_decision_variable_ids(),
+    };
+    for id in ids {
+        as_variable_id(decision_variables, id)?;
+    }
+    Ok(())
 }
 
 fn as_constraint_id(
